@@ -658,7 +658,7 @@ def r11(run):
     aps = F.appends_in(ab)
     run.exact("Store::append calls in handle_stream_append", len(aps), 1, ab.sp)
     for a in aps:
-        srcs = F.content_sources(a.setters.get("hash"))
+        srcs = F.content_sources(a.setters.get("hash"), run.facts)
         run.ob("xs::api::handle_stream_append|frame-carries-body-hash", bool(srcs) and all(c.fn.startswith("cacache::put::") for c in srcs), a.call.sp,
                "the appended frame's hash is the result of the CAS commit of the request body (%s)" % [c.fn.split("::")[-1] for c in srcs], reason="body-not-referenced")
 
